@@ -461,7 +461,10 @@ Conseq(k, dk, s, c, o, t) ==
                                    \/ (o.res = "CONFLICT" /\ ~t.L[n].lazy /\ LegitFile(dk, t.L[n], n)))
           /\ (n \in DOMAIN t.L) =>
                 (\/ (n \in DOMAIN L /\ t.L[n] = L[n])
-                 \/ (LegitFile(dk, t.L[n], n) /\ (\E i \in DOMAIN SP(s, c) : SP(s, c)[i] = t.L[n].dir))
+                 \* (from the call's own search path, or - when the target's dependency closure comes back to
+                 \*  the lazily loaded target and completes it - from the global path the closure is resolved on)
+                 \/ (LegitFile(dk, t.L[n], n) /\ ((\E i \in DOMAIN SP(s, c) : SP(s, c)[i] = t.L[n].dir)
+                                                  \/ (\E i \in DOMAIN s.path : s.path[i] = t.L[n].dir)))
                  \/ (IsMem(c) /\ t.L[n].dir = BUILTIN /\ t.L[n].fns = "" /\ t.L[n].c = Content(SrcFile(dk, c))))
     [] k = "Q_Loaded" -> o.res = "ok" /\ o.names = DOMAIN L
     [] k = "Q_Version" -> IF ld THEN o.res = "ok" /\ o.ret = L[c.ns].c.ver ELSE o.res = "notloaded"
